@@ -86,6 +86,23 @@ class Inner:
         return self._step("get_many", a, k)
 
 
+# every other command of the wrapped client (the wrapper must treat them all alike); real methods, as on a Client
+OTHER_METHODS = ("incr", "decr", "append", "prepend", "add", "replace", "cas", "touch", "gets", "gat", "gats", "gets_many", "set_many",
+                 "delete_many", "flush_all", "stats", "version", "quit", "set", "delete")
+
+
+def _mk(name):
+    def m(self, *a, **k):
+        return self._step(name, a, k)
+    m.__name__ = name
+    return m
+
+
+for _n in OTHER_METHODS:
+    if _n not in vars(Inner):
+        setattr(Inner, _n, _mk(_n))
+
+
 def predict(attempts, seq, retry_for, dnr):
     """-> (n_calls, outcome 'ok'|'raise') per the statement."""
     rf = tuple(CLASSES[x] for x in retry_for)
@@ -144,13 +161,16 @@ def run_case(res, retrying, attempts, seq, rf, dn, how, delay, method):
             elif method == "__getitem__":
                 out = ("ret", rc[a1])
                 want_call = ("get", (a1,), {})
+            else:
+                want_call = (method, (a1, a2), {"noreply": False})
+                out = ("ret", getattr(rc, method)(a1, a2, noreply=False))
         except BaseException as e:
             if not isinstance(e, Exception) and not any(e is x for x in inner.raised):
                 raise
             out = ("exc", e)
             want_call = {"get": ("get", (a1,), {"default": a2}), "get_many": ("get_many", ([a1, a2],), {}),
                          "__setitem__": ("set", (a1, a2), {"noreply": True}), "__delitem__": ("delete", (a1,), {"noreply": True}),
-                         "__getitem__": ("get", (a1,), {})}[method]
+                         "__getitem__": ("get", (a1,), {})}.get(method, (method, (a1, a2), {"noreply": False}))
     finally:
         retrying.sleep = saved
     ncalls, kind = predict(attempts, seq, rf, dn)
@@ -175,7 +195,7 @@ def run_case(res, retrying, attempts, seq, rf, dn, how, delay, method):
             res.violation("arguments-not-forwarded", "inner saw %r, expected %r" % (c[1:], want_call), case)
             break
     if kind == "ok":
-        if method in ("get", "get_many"):
+        if method in ("get", "get_many") or method in OTHER_METHODS:
             if out[0] != "ret" or out[1] is not inner.returned[-1]:
                 res.violation("result-not-first-success", "returned %r" % (out,), case)
         elif method == "__getitem__":
@@ -407,7 +427,7 @@ def shard(tier, seed, idx, n):
     pairs = [(rf, dn) for rf in subsets for dn in subsets if not set(rf) & set(dn)]
     work = 0
     hows = ("tuple", "list", "set", "none")
-    methods = ("get", "get_many", "__setitem__", "__delitem__", "__getitem__")
+    methods = ("get", "get_many", "__setitem__", "__delitem__", "__getitem__") + OTHER_METHODS
     for attempts in range(1, maxa + 1):
         for seq in itertools.product(OUTCOMES, repeat=attempts):
             for pi, (rf, dn) in enumerate(pairs):
@@ -418,7 +438,7 @@ def shard(tier, seed, idx, n):
                 if how == "none" and (rf and dn):
                     how = "tuple"
                 delay = (0, 0.25)[(work // n // 4) % 2]
-                method = methods[(work // n // 8) % 5] if (work // n) % 7 == 0 else "get"
+                method = methods[(work // n // 8) % len(methods)] if (work // n) % 3 == 0 else "get"
                 run_case(res, retrying, attempts, seq, rf, dn, how, delay, method)
                 nt = (attempts, seq, rf, dn) if any(o != "ok" for o in seq) else None
                 res.case(nt, {"attempts": attempts, "outcomes": seq, "retry_for": rf, "do_not_retry_for": dn, "spelling": how,
